@@ -334,7 +334,8 @@ func rembBits(r *Rng, wild bool) uint32 {
 		return b + uint32(r.Intn(9)) - 4
 	case 4:
 		if wild {
-			return uint32(r.Pick(0x7f800000, 0x80000000, 0xbf800000, 0xff800000, 0x00000001, 0x007fffff, 0x7f7fffff)) // +inf -0 -1 -inf denormals max
+			return uint32(r.Pick(0x7f800000, 0x80000000, 0xbf800000, 0xff800000, 0x00000001, 0x007fffff, 0x7f7fffff, // +inf -0 -1 -inf denormals max
+				0xbf000000, 0xbf7fbe77, 0xaedbe6ff, 0x80000001, 0x807fffff, 0xbf7fffff)) // -0.5 -0.999 -1e-10 and the negative denormals: negative, yet above -1
 		}
 		return 0
 	case 5: // small and fractional
@@ -1048,4 +1049,50 @@ func genTwccWrapValid(r *Rng) []byte {
 	hdr := []byte{0xa0 | 15, 205, 0, 0}
 	binary.BigEndian.PutUint16(hdr[2:], uint16((len(body)+4)/4-1))
 	return append(hdr, body...)
+}
+
+// dirtyXRHeaders: the embedded XRHeader of a block is an OUTPUT of Marshal (block type, type-specific octet, block
+// length are filled in): whatever an earlier Marshal or Unmarshal left there must not show in the encoding
+func dirtyXRHeaders(r *Rng, p rtcp.Packet) rtcp.Packet {
+	x, ok := p.(*rtcp.ExtendedReport)
+	if !ok {
+		return p
+	}
+	for i, b := range x.Reports {
+		if _, unk := b.(*rtcp.UnknownReportBlock); unk || b == nil {
+			continue // an opaque block's type and type-specific octet are its content
+		}
+		hdr, omits, vals, elems := xrParts(b)
+		hdr.TypeSpecific = rtcp.TypeSpecificField(r.Bits(8, 8))
+		hdr.BlockLength = uint16(r.Bits(16, 16))
+		hdr.BlockType = rtcp.BlockTypeType(r.Bits(8, 8))
+		x.Reports[i] = xrBuild(xrKindOf(b), hdr, omits, vals, elems)
+	}
+	return x
+}
+
+// genCcfbShort: a CCFB frame whose last report block announces one or two metric blocks more than the frame holds,
+// followed by another frame: the decoder must reject it, not read the next frame's octets
+func genCcfbShort(r *Rng) []byte {
+	b := []byte{0x8b, 205, 0, 0}
+	b = binary.BigEndian.AppendUint32(b, uint32(r.U64()))
+	for nb := r.Intn(2); nb > 0; nb-- { // complete blocks first
+		b = binary.BigEndian.AppendUint32(b, uint32(r.U64()))
+		b = binary.BigEndian.AppendUint16(b, uint16(r.Intn(1000)))
+		b = binary.BigEndian.AppendUint16(b, 1) // two metric blocks
+		b = append(b, r.Bytes(4)...)
+	}
+	n := 2 * (1 + r.Intn(3)) // metric blocks present (even, so no padding)
+	b = binary.BigEndian.AppendUint32(b, uint32(r.U64()))
+	b = binary.BigEndian.AppendUint16(b, uint16(r.Intn(1000)))
+	b = binary.BigEndian.AppendUint16(b, uint16(n-1+r.Pick(1, 2))) // field = count-1, plus one or two too many
+	b = append(b, r.Bytes(2*n)...)
+	if r.Bool() {
+		b = binary.BigEndian.AppendUint32(b, uint32(r.U64())) // report timestamp
+	}
+	for len(b)%4 != 0 {
+		b = append(b, 0)
+	}
+	binary.BigEndian.PutUint16(b[2:], uint16(len(b)/4-1))
+	return append(b, validFrame(r, []string{"BYE", "PLI", "RR", "RAW"}[r.Intn(4)])...)
 }
